@@ -15,6 +15,7 @@ let parse_docs_hex (toks : string list) : doc list option =
 let () =
   let path = Sys.argv.(1) in
   let ic = open_in path in
+  let skipped = ref 0 in
   let nstreams = ref 0 and mism = ref 0 and viol = ref 0 and known = ref 0 and nontriv = ref 0 in
   let cur_id = ref "" in
   let chunks = ref [] and rerr = ref false and parse_ok = ref true in
@@ -40,9 +41,9 @@ let () =
     match split_ws lhs with
     | ["S"; id; h] | ["S"; id; h; _] ->
         incr nstreams; cur_id := id; bad := false; inputs := None; pending_chunk_lines := [];
-        (match dec_docs (bytes_of_hex h) with
-         | Some ds -> let (cs, e) = x_read ds in chunks := cs; rerr := (e <> None); parse_ok := true
-         | None -> chunks := []; rerr := true; parse_ok := false)
+        (let ((cs, e), huge) = x_read_stream (bytes_of_hex h) in
+         chunks := cs; rerr := e; parse_ok := true;
+         if huge then begin bad := true; incr skipped end)
     | ["S"; id] -> incr nstreams; cur_id := id; bad := false; inputs := None; chunks := []; rerr := false; parse_ok := true
     | ["IN"] ->
         (match split_ws rhs with
@@ -95,9 +96,23 @@ let () =
                | None -> incr viol; Printf.printf "VIOL stream=%s line=%d decoded-docs-unparsable\n" !cur_id !ln)
           | None -> ()
         end
-    | ["RM"] | ["RE"] | ["RSM"] | ["RFM"] | ["RMM"] | ["REM"] -> ()
+    | ["RM"] | ["RE"] ->
+        let toks = split_ws rhs in
+        let docs = (match toks with _ :: _ :: d -> d | _ -> []) in
+        let m = if String.trim lhs = "RM" then
+            (let l = List.map matrix_doc !chunks in
+             if List.exists (fun x -> x = None) l then "MODEL-PANIC"
+             else hexdocs (List.map (fun x -> match x with Some d -> d | None -> []) l))
+          else hexdocs (List.map series_doc !chunks) in
+        if String.concat " " docs <> m then mismatch (String.trim lhs) (String.concat " " docs) m;
+        (match toks with e :: _ -> if e <> (if !rerr then "1" else "0") then mismatch (String.trim lhs ^ "-err") e "" | [] -> ())
+    | ["RSM"] | ["RFM"] | ["RMM"] | ["REM"] -> ()
     | ["ENDS"] -> ()
+    | "BEGIN" :: _ -> ()
+    | ("CRASH" | "HANG") :: idx :: msg ->
+        incr viol;
+        Printf.printf "VIOL stream=%s line=%d implementation %s (worker index %s): %s\n" !cur_id !ln (List.hd (split_ws lhs)) idx (String.concat " " msg)
     | [] -> ()
     | _ -> failwith ("unknown line: " ^ (if String.length line > 80 then String.sub line 0 80 else line))
   done with End_of_file -> ());
-  Printf.printf "SUMMARY cases=%d mismatches=%d violations=%d known=%d nontrivial=%d\n" !nstreams !mism !viol !known !nontriv
+  Printf.printf "SUMMARY cases=%d mismatches=%d violations=%d known=%d nontrivial=%d skipped_huge=%d\n" !nstreams !mism !viol !known !nontriv !skipped
